@@ -66,7 +66,7 @@ def handle (line : String) : String :=
         let A := toTDefSig a
         let acc := sigCanAssign liveTyRel e a
         let names := dedup ((e.params ++ a.params).map (·.name) ++ ["z"])
-        let d := match d07Classes liveTyRel E A with | [] => "-" | cs => ",".intercalate cs
+        let d := match d07Classes E A with | [] => "-" | cs => ",".intercalate cs
         if acc || force then
           let cex := behCex 3 3 names E A
           let tcex := typedCex tagIncl 3 3 names E A
